@@ -33,7 +33,7 @@ def body(case, env):
     for m in case['muts']: classes.append('mut:' + corrupt.CLASSES[m[0] % len(corrupt.CLASSES)])
     t = env['asan']
     p1, probs1 = hyp.fsck_logged(t, img, '-fy', env)
-    if (p1.rc is None and not p1.cpu_limit_hit and not p1.truncated) or (p1.rc is not None and p1.rc >= 90):
+    if (p1.rc is None and not p1.cpu_limit_hit and not p1.truncated and p1.sig != 25) or (p1.rc is not None and p1.rc >= 90):
         # a repair run that dies (fatal signal caught by e2fsck's own handler, sanitizer abort) has not repaired anything
         return (dict(kind='repair-run-crashed', cfg=case['cfg'], areas=corrupt.areas(desc), rc1=p1.rc, sig=p1.sig, applied=desc, tail=[l for l in p1.out.splitlines() if l.strip()][-12:]), fp, True, None, classes)
     if p1.rc is None or p1.rc & ~3 or p1.cpu_limit_hit:
